@@ -786,8 +786,13 @@ pub fn run_scenario(sc: &Scenario) -> RunReport {
     }
 }
 
+pub fn trace_digest(rep: &RunReport) -> String {
+    format!("{:016x}", digest(&format!("{:?}#{:?}#{:?}", rep.log, rep.violation, rep.choices)))
+}
+
 pub fn report_json(rep: &RunReport) -> Value {
     json!({
+        "trace_digest": trace_digest(rep),
         "violation": rep.violation.as_ref().map(|(c, d)| json!([c, d])),
         "choices": rep.choices, "diverged": rep.diverged, "events": rep.events, "lock_events": rep.lock_events,
         "log": rep.log, "harness_error": rep.harness_error, "rejected_ops": rep.rejected_ops,
@@ -830,11 +835,16 @@ pub fn worker(input: &Value) -> Value {
     let mut policies: std::collections::BTreeMap<String, u64> = Default::default();
     let mut samples = Vec::new();
     let mut determinism_checked = 0u64;
+    let want_trace = input["trace"].as_bool().unwrap_or(false);
+    let mut trace: Vec<Value> = Vec::new();
     let mut run = shard;
     while run < runs {
         let sc = if property == "C13" { gen_sequential(seed, boot_seed, run) } else { gen_concurrent(seed, boot_seed, run) };
         let rep = run_scenario(&sc);
         n += 1;
+        if want_trace {
+            trace.push(json!([run, trace_digest(&rep), explicit(&sc, &rep).to_json()]));
+        }
         events += rep.events;
         lock_events += rep.lock_events;
         switches += rep.context_switches;
@@ -889,7 +899,7 @@ pub fn worker(input: &Value) -> Value {
         "ops": ops, "rejected": rejected, "policies": policies, "failing_ops_fired": failing, "overlapped_rmw_pairs": overlapped,
         "probes": {"reader_behind_queued_writer": probes.reader_behind_queued_writer, "nested_read": probes.nested_read,
                    "writer_waited": probes.writer_waited, "reader_waited": probes.reader_waited, "reads": probes.reads, "writes": probes.writes},
-        "violations": violations, "harness_errors": harness_errors, "samples": samples, "determinism_checked": determinism_checked,
+        "violations": violations, "harness_errors": harness_errors, "samples": samples, "determinism_checked": determinism_checked, "trace": trace,
     })
 }
 
